@@ -42,7 +42,7 @@ Systems == { "spherical", "cartesian" }
 BallMetrics(s) == IF s = "spherical" THEN { "haversine" } ELSE { "minkowski", "chebyshev" }
 KdMetrics(s)   == { "minkowski", "chebyshev" }
 PEs     == { "exclude", "split", "ignore" }
-Projs   == { "none", "robinson" }
+Projs   == { "none", "robinson", "robinson180" }   \* the last one moves the seam (central longitude 180)
 Engs    == { "spatialpandas", "geopandas" }
 Fmts    == { "ugrid", "exodus", "scrip" }
 AreaArgs == { <<"triangular", 4, TRUE>>, <<"triangular", 1, TRUE>>, <<"gaussian", 4, TRUE>>,
